@@ -307,6 +307,65 @@ def load {α} (o : Opts) (slabs : List (Slab α)) : Except Fault (Result α) :=
   | .error e => .error e
   | .ok p => .ok p.1
 
+/-! ### specification vocabulary -/
+
+def total (ns : List Nat) : Nat := ns.foldr (· + ·) 0
+
+/-- running starts: `offsets off [n0, n1, …] = [off, off+n0, off+n0+n1, …]` (one longer than the input) -/
+def offsets (off : Nat) : List Nat → List Nat
+  | [] => [off]
+  | n :: ns => off :: offsets (off + n) ns
+
+/-- what the zipper reads for one row of the (zeroed) table: `part[start : start+np]` then, in a cleaned
+load, `clean[mstart : mstart+mnp]` -/
+def rowParts {α} (X : Sub) (part cl : List α) (r : Row) : List α :=
+  pySlice part (r.1.start X) (r.1.start X + r.1.np X) ++
+    (match r.2 with
+     | some c => pySlice cl (c.mStart X) (c.mStart X + c.mNp X)
+     | none => [])
+
+/-- THE SPECIFICATION of a halo's particles: the original range unless the halo was cleaned away
+(`N_total = 0`), then the merged-in range -/
+def ownParts {α} (X : Sub) (part cl : List α) (r : Row) : List α :=
+  match r.2 with
+  | some c => (if c.nTotal = 0 then [] else pySlice part (r.1.start X) (r.1.start X + r.1.np X)) ++
+              pySlice cl (c.mStart X) (c.mStart X + c.mNp X)
+  | none => pySlice part (r.1.start X) (r.1.start X + r.1.np X)
+
+/-- number of particles the specification gives a halo -/
+def ownCnt (X : Sub) (r : Row) : Nat :=
+  match r.2 with
+  | some c => (if c.nTotal = 0 then 0 else r.1.np X) + c.mNp X
+  | none => r.1.np X
+
+/-- well-formed row: the ranges the specification mentions lie inside their files -/
+def rowWF {α} (X : Sub) (part cl : List α) (r : Row) : Bool :=
+  match r.2 with
+  | some c => (c.nTotal = 0 || r.1.start X + r.1.np X ≤ part.length) && c.mStart X + c.mNp X ≤ cl.length
+  | none => r.1.start X + r.1.np X ≤ part.length
+
+/-- well-formed input: the compaction goes through (clean lists as long as halo lists, one mask of the right
+length per superslab) and every kept row of every superslab is well-formed for every loaded subsample -/
+def wf {α} (o : Opts) (slabs : List (Slab α)) : Bool :=
+  match masksFor o.masks slabs.length with
+  | .error _ => false
+  | .ok mks =>
+    match readAll o.cleaned slabs mks with
+    | .error _ => false
+    | .ok kept =>
+      (slabs.zip kept).all (fun p => p.2.all (fun r => (loadList o).all (fun X =>
+        rowWF X (p.1.part X) (p.1.cleanPart X) r)))
+
+def idxOf (X : Sub) {β} : List (Sub × β) → Option β
+  | [] => none
+  | (Y, v) :: rest => if X = Y then some v else idxOf X rest
+
+/-- the `npoutX` column of a result (empty when X was not loaded) -/
+def blockCounts {α} (r : Result α) (X : Sub) : List Nat :=
+  match idxOf X r.idx with
+  | some p => p.2
+  | none => []
+
 /-! ### light-cone layout: one file, stored indices, no rewrite -/
 
 structure LcResult (α : Type) where
